@@ -11,6 +11,8 @@ pub type NamespaceID = usize;
 pub type Ref = usize;
 //@ type sylt-tokenizer/src/tokenizer.rs struct Span keep=Copy clone=keep eq=none
 //@ type sylt-common/src/lib.rs struct TyID keep=Copy,Eq,Hash,PartialOrd,Ord clone=keep eq=keep
+// assumption: derive(PartialEq) on TyID is structural equality
+impl PartialEqSpecImpl for TyID { open spec fn obeys_eq_spec() -> bool { true } open spec fn eq_spec(&self, other: &TyID) -> bool { *self == *other } }
 //@ type sylt-parser/src/parser.rs enum VarKind keep=Copy clone=keep eq=keep
 //@ type sylt-parser/src/parser.rs struct Identifier keep=- clone=ext
 //@ type sylt-parser/src/parser.rs struct TypeConstraint eq=none
